@@ -170,9 +170,8 @@ Print Assumptions C08_heap_source_is_model.
 (** ---- source tie of the scheduler (partial for the allocation pass): the WHOLE translated sim.SimOps.__init__ (Gen/SimOpsSrc.v,
     regenerated from the current source) is its allocation section [alloc_src_] -- which runs over the translated class Heap
     (Gen/HeapSrc.v) -- applied to the MODEL's op rows, stem table, reference counts and level boundaries.
-    NOT yet a theorem: alloc_src_ ... = the allocation events of [build] (c_locs / c_caps / c_len).  Missing: threading the heap
-    invariant (HInv, free only of live locations) through the translated loops so that C08_heap_source_is_model applies at every
-    call; until then the allocation section is tied by correspondence (translated source = implementation = model per case). *)
+    The remaining step, alloc_src_ ... = the allocation events of [build] (c_locs / c_caps / c_len), is
+    C08_simops_alloc_source_is_model below (round f); the *_partial theorems are kept because they need no hypothesis on the gates. *)
 From KV Require Import Model.SimOpsSrcLib Gen.SimOpsSrc.
 From KV Require Proofs.SimOpsSrcLevels.
 Theorem C08_simops_source_prefix_partial : forall c actrl caps cmin reuse strip stems,
@@ -189,11 +188,8 @@ Theorem C08_simops_source_prefix_partial : forall c actrl caps cmin reuse strip 
       (fun '(locs, cps, clen) => Some (rows, starts, stops, locs, cps, clen, stems)).
 Proof. exact KV.Proofs.SimOpsSrcLevels.simops_source_prefix. Qed.
 
-(** the allocation section translated from the CURRENT source is the pinned translation (see Proofs/SimOpsSrcAllocPin.v): a changed
-    allocation pass breaks this obligation even though its equality with [build] is not yet a theorem *)
-From KV Require Proofs.SimOpsSrcAllocPin.
-Theorem C08_simops_alloc_section_pinned : alloc_src_ = KV.Proofs.SimOpsSrcAllocPin.alloc_pin.
-Proof. exact KV.Proofs.SimOpsSrcAllocPin.alloc_section_pinned. Qed.
+(** (round f: the pinned copy of the allocation section, C08_simops_alloc_section_pinned / Proofs/SimOpsSrcAllocPin.v, is replaced by the
+    equality theorems C08_simops_alloc_source_is_model / C08_simops_source_is_model at the end of this file) *)
 
 (** the same for EVERY well-formed netlist and any a_ctrl argument, without range side conditions *)
 From KV Require Proofs.SimOpsSrcDomain.
@@ -208,3 +204,62 @@ Theorem C08_simops_source_prefix_wf_partial : forall c given caps cmin reuse str
   = bind (alloc_src_ c sl nl (nl + 1)%nat (nl + 2)%nat (nl + 3)%nat (nl + 3 + sl)%nat (KV.Proofs.SimOpsSrcLevels.src_len c) rows stems (ls_ref ls) starts stops caps cmin reuse)
       (fun '(locs, cps, clen) => Some (rows, starts, stops, locs, cps, clen, stems)).
 Proof. exact KV.Proofs.SimOpsSrcDomain.simops_source_prefix_wf. Qed.
+
+(** ---- source tie of the scheduler, completed (round f): the allocation section of the CURRENT source (sim.py:263-320: three special
+    slots, one slot per interface node with outputs, per level one chunk per op output through the TRANSLATED class Heap, the level's
+    release set freed under c_reuse, aliases for stripped branches and PO/PPO slots, c_len), run on the model's rows / stem table /
+    reference counts / level boundaries, returns exactly c_locs / c_caps / c_len of [build] -- for every well-formed, combinationally
+    acyclic netlist of known gates (forks_ok when strip_forks), every capacity vector, c_caps_min > 0, all four option combinations.
+    The heap invariant and "only live chunks are freed" are threaded through the translated loops by the reference-count invariant J of
+    Proofs/ReuseProofs.v, so C08_heap_source_is_model applies at every alloc / free of the source. *)
+From KV Require Proofs.SimOpsSrcAlloc.
+Theorem C08_simops_alloc_source_is_model : forall c actrl caps cmin reuse strip stems so,
+  wf_netlist c -> comb_acyclic c -> (0 < cmin)%N -> KV.Proofs.EndToEnd.gates_known c ->
+  (strip = true -> KV.Proofs.ReuseStrip.forks_ok c) ->
+  build_stems c strip (KV.Proofs.SimOpsSrcLevels.src_len c) = Some stems ->
+  build c caps cmin reuse strip = Some so ->
+  let nl := List.length (c_lines c) in let sl := List.length (s_nodes c) in
+  let ops := build_ops c strip in let rows := map (row_of_sop actrl) ops in
+  let ls := levelize stems ops (KV.Proofs.SimOpsSrcLevels.src_len c) in
+  let starts := rev (ls_starts ls) in let stops := tl starts ++ [List.length ops] in
+  alloc_src_ c sl nl (nl + 1)%nat (nl + 2)%nat (nl + 3)%nat (nl + 3 + sl)%nat (KV.Proofs.SimOpsSrcLevels.src_len c) rows stems (ls_ref ls) starts stops caps cmin reuse
+  = Some (so_locs so, so_caps so, so_len so).
+Proof. exact KV.Proofs.SimOpsSrcAlloc.alloc_source_is_model. Qed.
+
+(** the WHOLE translated sim.SimOps.__init__ is [build]: op rows (with their a_ctrl columns), level_starts, level_stops, c_locs, c_caps,
+    c_len and the stem table -- so C08_build_passes_certificate_all, C06_options_irrelevant_spec, C03_build_regions_all, C07_build_sched_cert
+    ... speak about the constructor as written *)
+Theorem C08_simops_source_is_model : forall c given caps cmin reuse strip so,
+  wf_netlist c -> comb_acyclic c -> (0 < cmin)%N -> KV.Proofs.EndToEnd.gates_known c ->
+  (strip = true -> KV.Proofs.ReuseStrip.forks_ok c) ->
+  build c caps cmin reuse strip = Some so ->
+  let actrl := a_ctrl_norm given (List.length (c_lines c) + 3)%nat in
+  simops_src c actrl caps cmin reuse strip (S (List.length (c_nodes c)))
+  = Some (map (row_of_sop actrl) (so_ops so), so_level_starts so, tl (so_level_starts so) ++ [List.length (so_ops so)],
+          so_locs so, so_caps so, so_len so, so_stems so).
+Proof. exact KV.Proofs.SimOpsSrcAlloc.simops_source_is_model. Qed.
+
+(* the constructor as written succeeds whenever the capacity vector covers the lines (and the stem walk terminates), and the memory map
+   it returns passes the ownership certificate *)
+Theorem C08_simops_source_total_certified : forall c given caps cmin reuse strip,
+  wf_netlist c -> comb_acyclic c -> (0 < cmin)%N -> KV.Proofs.EndToEnd.gates_known c ->
+  (strip = true -> KV.Proofs.ReuseStrip.forks_ok c) ->
+  (List.length (c_lines c) <= List.length caps)%nat ->
+  build_stems c strip (List.length (c_lines c) + 3 + List.length (s_nodes c) + List.length (s_nodes c))%nat <> None ->
+  let actrl := a_ctrl_norm given (List.length (c_lines c) + 3)%nat in
+  exists so,
+    simops_src c actrl caps cmin reuse strip (S (List.length (c_nodes c)))
+    = Some (map (row_of_sop actrl) (so_ops so), so_level_starts so, tl (so_level_starts so) ++ [List.length (so_ops so)],
+            so_locs so, so_caps so, so_len so, so_stems so) /\
+    so_nlines so = List.length (c_lines c) /\ so_slen so = List.length (s_nodes c) /\
+    map_check (so_loc so) (so_alias c so) (so_init so) (so_final so) (so_ops so) = true.
+Proof. exact KV.Proofs.SimOpsSrcAlloc.simops_source_total_certified. Qed.
+
+Theorem C08_simops_source_nonvacuous : exists c caps cmin,
+  wf_netlist c /\ comb_acyclic c /\ (0 < cmin)%N /\ KV.Proofs.EndToEnd.gates_known c /\ KV.Proofs.ReuseStrip.forks_ok c /\
+  forall reuse strip, exists so, build c caps cmin reuse strip = Some so /\
+    simops_src c (a_ctrl_norm None (List.length (c_lines c) + 3)%nat) caps cmin reuse strip (S (List.length (c_nodes c)))
+    = Some (map (row_of_sop (a_ctrl_norm None (List.length (c_lines c) + 3)%nat)) (so_ops so), so_level_starts so,
+            tl (so_level_starts so) ++ [List.length (so_ops so)], so_locs so, so_caps so, so_len so, so_stems so).
+Proof. exact KV.Proofs.SimOpsSrcAlloc.simops_source_nonvacuous. Qed.
+Print Assumptions C08_simops_source_is_model.
